@@ -385,6 +385,7 @@ func (l *Linter) LintFiles(filepaths []string, project *Project) ([]*Error, erro
 	}
 
 	if err := eg.Wait(); err != nil {
+		proc.wait() // Some processes may be still running when the error caused early return from visiting a workflow
 		return nil, err
 	}
 	verifPoint("egWait", nil)
